@@ -159,7 +159,7 @@ def run_case(ctx, g, rng):
         small_world_case(ctx, g)
     d = rng.choice(gen.DELIMS)
     start = gen.records(rng, d, 0, 4, allow_delim=True, patterns=True)
-    if g % 100 == 99:
+    if g % 101 == 100:
         # the same histories on a converter far above any plausible fast-path threshold
         start = gen.large_records(rng, rng.choice([150, 400]) if ctx.tier == "thorough" else 90, d)
         S.counters["wl:at-scale-histories"] += 1
